@@ -32,6 +32,12 @@ func genC19(seed uint64, r *rng.Rand) *Plan {
 		p.Faults = append(p.Faults, &Fault{On: "exec", N: at, Act: "zkfail", Count: -1})
 		p.Faults = append(p.Faults, &Fault{On: "exec", N: at, Act: "reset", Server: p.Layout.Meta})
 	}
+	if g.R.Chance(0.1) {
+		// a slow ZooKeeper: lookups outlast the lookup timeout and Close; their
+		// answers arrive when nobody waits for them any more
+		p.Client.LookupMS = []int{0, 1000, 100}[g.R.Intn(3)]
+		p.Faults = append(p.Faults, &Fault{On: "step", N: 1, Act: "zkdelay", Dur: []int{50, 500, 5000, 45000}[g.R.Intn(4)]})
+	}
 	// Close at a PRNG-chosen step, biased to the early windows (lookup, dial, probe)
 	n := []int{g.R.Range(1, 60), g.R.Range(1, 250), g.R.Range(1, 1500)}[g.R.Intn(3)]
 	p.Faults = append(p.Faults, &Fault{On: "step", N: n, Act: "close"})
@@ -125,8 +131,8 @@ func (w *World) checkC19(reason string) []Violation {
 		if e.NDials != w.quietMark.dials {
 			vs = append(vs, w.viol("C19", "dial-after-close", "%d connection(s) dialled after Close returned and all calls had returned", e.NDials-w.quietMark.dials))
 		}
-		if len(e.ZK.Queries) != w.quietMark.zk {
-			vs = append(vs, w.viol("C19", "lookup-after-close", "%d ZooKeeper querie(s) after Close returned and all calls had returned", len(e.ZK.Queries)-w.quietMark.zk))
+		if e.ZK.Started != w.quietMark.zk {
+			vs = append(vs, w.viol("C19", "lookup-after-close", "%d ZooKeeper querie(s) started after Close returned and all calls had returned", e.ZK.Started-w.quietMark.zk))
 		}
 		if e.NFrames != w.quietMark.frames {
 			vs = append(vs, w.viol("C19", "request-after-close", "%d request(s) written after Close returned and all calls had returned", e.NFrames-w.quietMark.frames))
@@ -161,7 +167,7 @@ func init() {
 			e.Loop(func() bool { return w.CloseReturned })
 			// calls in progress have returned: from now on nothing may start
 			e.Drain(time.Second)
-			w.quietMark.set, w.quietMark.dials, w.quietMark.zk, w.quietMark.frames = w.AllDone(), e.NDials, len(e.ZK.Queries), e.NFrames
+			w.quietMark.set, w.quietMark.dials, w.quietMark.zk, w.quietMark.frames = w.AllDone(), e.NDials, e.ZK.Started, e.NFrames
 			e.Drain(5 * time.Minute)
 		},
 		Check:      func(w *World, reason string) []Violation { return w.checkC19(reason) },
